@@ -39,14 +39,18 @@ def warmup():
 def gen(tier, seed):
     warmup()
     rng = random.Random(seed)
-    scenes = NW.gen_scenes(rng, 500 if tier == "quick" else 8000)
+    scenes = NW.gen_scenes(rng, 350 if tier == "quick" else 8000)
     fns = functions()
     recs, meta, n = [], {}, 0
     for A, B in scenes:
-        for lk in (["id", rng.choice(("scale", "rigid"))] if tier == "quick" else ["id", "scale", "rigid"]):
+        for lk in (["id", rng.choice(("scale", "rigid", "farsmall", "farsmall"))] if tier == "quick" else ["id", "scale", "rigid", "farsmall"]):
             lift = NW.random_lift(rng, A, B, lk)
+            u = None
+            if lk != "id" and rng.random() < 0.7:
+                B, u = NW.graze(A, B, rng, DELTA * NW.scene_L(A, B, lift) / lift[0])
             for X, Y in ((A, B), (B, A)):
                 clsX, clsY = rng.choice(X.classes()), rng.choice(Y.classes())
+                un = None if u is None else (u if X is A else -u)
                 for fname, (call, proxy, only) in fns.items():
                     if only is not None and (clsX not in only or clsY not in only or X.margin or Y.margin):
                         continue
@@ -54,9 +58,37 @@ def gen(tier, seed):
                         continue
                     n += 1
                     rid = f"b{n}"
-                    recs.append(NW.measure_bool(rid, X, Y, lift, fname, call, DELTA, clsX, clsY, proxy))
+                    recs.append(NW.measure_bool(rid, X, Y, lift, fname, call, DELTA, clsX, clsY, proxy, normal=un))
                     meta[rid] = {"A": X.describe(), "B": Y.describe(), "clsA": clsX, "clsB": clsY, "fn": fname,
                                  "lift": [lift[0], lift[1].tolist(), lift[2].tolist()]}
+    # small scenes far from the origin with shallow but clear overlaps / gaps (absolute tolerances of the
+    # algorithms against large world coordinates)
+    for A, B0 in NW.gen_scenes(rng, 250 if tier == "quick" else 4000):
+        lift = NW.random_lift(rng, A, B0, "farsmall")
+        B, u = NW.graze(A, B0, rng, DELTA * NW.scene_L(A, B0, lift) / lift[0], ks=(-3, -8, -20, -60, 3, 20))
+        for fname, (call, proxy, only) in fns.items():
+            if only is not None or "[acc]" in fname:
+                continue
+            n += 1
+            rid = f"b{n}"
+            recs.append(NW.measure_bool(rid, A, B, lift, fname, call, DELTA, None, None, proxy, normal=u))
+            meta[rid] = {"A": A.describe(), "B": B.describe(), "clsA": A.classes()[0], "clsB": B.classes()[0], "fn": fname,
+                         "lift": [lift[0], lift[1].tolist(), lift[2].tolist()]}
+    # primitives-only algorithms: a dense sweep of aligned primitive pairs (cheap, fully compiled)
+    for A, B0 in NW.gen_prim_scenes(rng, 1200 if tier == "quick" else 30000):
+        lift = NW.random_lift(rng, A, B0, rng.choice(("id", "id", "scale", "rigid")))
+        L = NW.scene_L(A, B0, lift)
+        # the scene itself and two variants at prescribed separation just outside the grazing band
+        variants = [(B0, None)] + [NW.graze(A, B0, rng, DELTA * L / lift[0]) for _ in range(2)]
+        for B, u in variants:
+            for fname, (call, proxy, only) in fns.items():
+                if only is None and (u is None or rng.random() < 0.5):
+                    continue
+                n += 1
+                rid = f"b{n}"
+                recs.append(NW.measure_bool(rid, A, B, lift, fname, call, DELTA, None, None, proxy, normal=u))
+                meta[rid] = {"A": A.describe(), "B": B.describe(), "clsA": A.classes()[0], "clsB": B.classes()[0], "fn": fname,
+                             "lift": [lift[0], lift[1].tolist(), lift[2].tolist()]}
     return recs, meta
 
 
